@@ -295,6 +295,17 @@ impl Chain {
 
         let mut prev_block = self.get_genesis()?.ok_or(ChainError::EmptyChain)?;
 
+        // The genesis header is pinned by block 1's prev_hash; its transactions and
+        // signatures are not covered by that hash and are always empty.
+        if !prev_block.transactions.is_empty()
+            || !prev_block.header.signature.is_empty()
+            || !prev_block.signatures.is_empty()
+        {
+            return Err(ChainError::ValidationFailed(
+                "genesis block carries transactions or signatures".to_string(),
+            ));
+        }
+
         for h in 1..=height {
             let block = self.get_block_at(h)?.ok_or(ChainError::BlockNotFound(h))?;
 
